@@ -27,10 +27,11 @@ AXIOMS = {
     'N1': 'forall(lambda s, e, m, p: pat(val(s, e, m, p), val(s, e, m, p) == val(0 - s, e, 0 - m, p)))',
     # --- field operations on equal exponent / precision (addition, order) and in general (product, negation)
     'A1': 'forall(lambda s, e, m1, m2, p: pat(qadd(val(s, e, m1, p), val(s, e, m2, p)), qadd(val(s, e, m1, p), val(s, e, m2, p)) == val(s, e, m1 + m2, p)))',
-    'M1': 'forall(lambda s1, e1, m1, p1, s2, e2, m2, p2: qmul(val(s1, e1, m1, p1), val(s2, e2, m2, p2)) == val(s1 * s2, e1 + e2, m1 * m2, p1 * p2))',
-    'G1': 'forall(lambda s, e, m, p: qneg(val(s, e, m, p)) == val(s * -1, e, m, p))',
-    'S1': 'forall(lambda x, y: qsub(x, y) == qadd(x, qneg(y)))',
-    'C1': 'forall(lambda e, m1, m2, p: implies(p >= 1, qcmp(val(1, e, m1, p), val(1, e, m2, p)) == (1 if m1 > m2 else (0 if m1 == m2 else -1))))',
+    'M1': 'forall(lambda s1, e1, m1, p1, s2, e2, m2, p2: pat(qmul(val(s1, e1, m1, p1), val(s2, e2, m2, p2)), qmul(val(s1, e1, m1, p1), val(s2, e2, m2, p2)) == val(s1 * s2, e1 + e2, m1 * m2, p1 * p2)))',
+    'G1': 'forall(lambda s, e, m, p: pat(qneg(val(s, e, m, p)), qneg(val(s, e, m, p)) == val(s * -1, e, m, p)))',
+    'S1': 'forall(lambda x, y: pat(qsub(x, y), qsub(x, y) == qadd(x, qneg(y))))',
+    'C1': 'forall(lambda s, e, m1, m2, p: pat(qcmp(val(s, e, m1, p), val(s, e, m2, p)), implies(p >= 1 and (s == 1 or s == -1), '
+          'qcmp(val(s, e, m1, p), val(s, e, m2, p)) == ((1 if m1 > m2 else (0 if m1 == m2 else -1)) if s == 1 else (1 if m1 < m2 else (0 if m1 == m2 else -1))))))',
 }
 AX = lambda *names: [AXIOMS[n] for n in names]
 
@@ -110,12 +111,42 @@ hfunc(H, 'FPNum.__init__', ['self'], key='FPNum.__init__/0', oid_suffix='/0', va
 callee('new:FPNum/0', args=[], modifies=['f:inexact', 'f:infinity', 'f:nan'], ensures=_I0)
 
 # ------------------------------------------------------------------------------------------------ arithmetic and order
-callee('m:copy', args=[], returns=True)
-_USES = ['new:FPNum/4', 'new:FPNum/0', 'm:increase_exponent', 'm:increase_precision', 'm:copy', 'm:add']
-_OPERANDS_KEPT = [SAME('self'), SAME('bref')]
+# ghost o.__alloc: the object exists.  A call allocates, so: whatever existed before is unchanged, and the result is new.
+_MOD_NEW = _MOD_ALL + ['f:#alloc']
+_KEPT = ['forall(lambda o: implies(old(o.__alloc), o.__alloc and %s))' % ' and '.join('o.%s == old(o.%s)' % (f, f) for f in FIELDS)]
+_NEW = ['not old(result.__alloc) and result.__alloc']
+_EXIST = lambda *os: ['%s.__alloc' % o for o in os]
+_COPY_ENS = [' and '.join('result.%s == old(self.%s)' % (f, f) for f in FIELDS if f != 'inexact') + ' and result.inexact == old(self.inexact)'] + _NEW + _KEPT
+hfunc(H, 'FPNum.copy', ['self'], props=('C12',), refs=['self'], uses=['new:FPNum/0', 'm:set_semp'],
+      requires=_EXIST('self'), modifies=_MOD_NEW, ensures=_COPY_ENS)
+callee('m:copy', args=[], requires=_EXIST('self'), modifies=_MOD_NEW, returns=True, ensures=_COPY_ENS)
+
+_USES = ['new:FPNum/4', 'new:FPNum/0', 'm:increase_exponent', 'm:increase_precision', 'm:copy']
+_ADD_REQ = lambda b: [FINITE('self'), FINITE(b)] + _EXIST('self', b)
+_ADD_ENS = lambda b: [QV('result') + ' == qadd(old(%s), old(%s))' % (QV('self'), QV(b)), FINITE('result')] + _NEW + _KEPT
 hfunc(H, 'FPNum.add', ['self', 'bref'], props=('C12',), refs=['self', 'bref'], uses=_USES,
       axioms=AX('P1', 'N1', 'A1'), axiom_sets=[AX('P1')], cases=['self.s == 1', 'bref.s == 1'], timeout=60,
-      requires=[FINITE('self'), FINITE('bref')],
-      modifies=_MOD_ALL,
-      # the sum of finite numbers is computed exactly, as a rational
-      ensures=[QV('result') + ' == qadd(old(%s), old(%s))' % (QV('self'), QV('bref')), FINITE('result')] + _OPERANDS_KEPT)
+      requires=_ADD_REQ('bref'), modifies=_MOD_NEW,
+      # the sum of finite numbers is computed exactly, as a rational; the operands (and every other existing object) are untouched
+      ensures=_ADD_ENS('bref'))
+callee('m:add', args=['bref'], requires=_ADD_REQ('bref'), modifies=_MOD_NEW, returns=True, ensures=_ADD_ENS('bref'))
+
+hfunc(H, 'FPNum.sub', ['self', 'bref'], props=('C12',), refs=['self', 'bref'], uses=_USES + ['m:add'],
+      axioms=AX('P1', 'G1', 'S1'), axiom_sets=[AX('P1')], timeout=60,
+      requires=_ADD_REQ('bref'), modifies=_MOD_NEW,
+      ensures=[QV('result') + ' == qsub(old(%s), old(%s))' % (QV('self'), QV('bref')), FINITE('result')] + _NEW + _KEPT)
+
+hfunc(H, 'FPNum.mul', ['self', 'b'], props=('C12',), refs=['self', 'b'], uses=_USES,
+      axioms=AX('P1', 'P5', 'M1'), axiom_sets=[AX('P1', 'P5')], timeout=60, opaque_mul=True,
+      requires=_ADD_REQ('b'), modifies=_MOD_NEW,
+      ensures=[QV('result') + ' == qmul(old(%s), old(%s))' % (QV('self'), QV('b')), FINITE('result')] + _NEW + _KEPT)
+
+hfunc(H, 'FPNum.neg', ['self'], props=('C12',), refs=['self'], uses=_USES, axioms=AX('P1', 'G1'), axiom_sets=[AX('P1')],
+      requires=[FINITE('self')] + _EXIST('self'), modifies=_MOD_NEW,
+      ensures=[QV('result') + ' == qneg(old(%s))' % QV('self'), FINITE('result')] + _NEW + _KEPT)
+
+hfunc(H, 'FPNum.compare', ['self', 'bref'], props=('C12',), refs=['self', 'bref'], uses=_USES,
+      axioms=AX('P1', 'N1', 'C1'), axiom_sets=[AX('P1')], cases=['self.s == 1', 'bref.s == 1'], timeout=60,
+      requires=_ADD_REQ('bref'), modifies=_MOD_NEW,
+      # the order of the denoted rationals: -1 / 0 / 1
+      ensures=['result == qcmp(old(%s), old(%s))' % (QV('self'), QV('bref'))] + _KEPT)
